@@ -38,9 +38,9 @@ MSimple(lex)    == [k |-> "simple", lex |-> lex]           \* text of a simple t
 MMixed          == [k |-> "mixed"]                         \* geoReference: mixed content, anything goes
 
 At(n, lex, req) == [n |-> n, lex |-> lex, req |-> req]
-T(m, ch, at) == [m |-> m, ch |-> ch, at |-> at]            \* model, child name -> type name, attributes
+XT(m, ch, at) == [m |-> m, ch |-> ch, at |-> at]            \* model, child name -> type name, attributes
 NoAt == <<>>
-RefT == T(MEmpty, <<>>, <<At("ref", "integer", TRUE)>>)    \* laneletRef, trafficSignRef, trafficLightRef, incomingRef
+RefT == XT(MEmpty, <<>>, <<At("ref", "integer", TRUE)>>)    \* laneletRef, trafficSignRef, trafficLightRef, incomingRef
 
 (* ---------------------------------- enumerations (xs:restriction base xs:string) ------------------- *)
 EnumLineMarking == {"dashed", "solid", "solid_solid", "dashed_dashed", "solid_dashed", "dashed_solid", "curb",
@@ -133,72 +133,72 @@ TagSeq == <<"interstate", "highway", "urban", "comfort", "critical", "evasive", 
             "lane_change", "lane_following", "merging_lanes", "multi_lane", "no_oncoming_traffic", "oncoming_traffic",
             "parallel_lanes", "race_track", "roundabout", "rural", "simulated", "single_lane", "slip_road", "speed_limit",
             "traffic_jam", "turn_left", "turn_right", "two_lane", "emergency_braking">>
-OccSetT == T(MSeq(<<Some("occupancy")>>), [occupancy |-> "occupancy"], NoAt)
+OccSetT == XT(MSeq(<<Some("occupancy")>>), [occupancy |-> "occupancy"], NoAt)
 IdAt == <<At("id", "positiveInteger", TRUE)>>
 DynSeq(pred) == <<One("type"), One("shape"), One("initialState"), Opt("initialSignalState"), One(pred), Opt("signalSeries")>>
 
 Types ==
   [ \* simple types used as element types
-    xs_decimal |-> T(MSimple("decimal"), <<>>, NoAt), positiveDecimal |-> T(MSimple("positiveDecimal"), <<>>, NoAt),
-    xs_integer |-> T(MSimple("integer"), <<>>, NoAt), xs_positiveInteger |-> T(MSimple("positiveInteger"), <<>>, NoAt),
-    xs_nonNegativeInteger |-> T(MSimple("nonNegativeInteger"), <<>>, NoAt), integerZero |-> T(MSimple("integerZero"), <<>>, NoAt),
-    xs_boolean |-> T(MSimple("boolean"), <<>>, NoAt), xs_string |-> T(MSimple("string"), <<>>, NoAt),
-    xs_time |-> T(MSimple("time"), <<>>, NoAt),
-    lineMarking |-> T(MSimple("lineMarking"), <<>>, NoAt), laneletType |-> T(MSimple("laneletType"), <<>>, NoAt),
-    vehicleType |-> T(MSimple("vehicleType"), <<>>, NoAt), trafficSignID |-> T(MSimple("trafficSignID"), <<>>, NoAt),
-    trafficLightColor |-> T(MSimple("trafficLightColor"), <<>>, NoAt),
-    trafficLightDirection |-> T(MSimple("trafficLightDirection"), <<>>, NoAt),
-    obstacleTypeStatic |-> T(MSimple("obstacleTypeStatic"), <<>>, NoAt),
-    obstacleTypeDynamic |-> T(MSimple("obstacleTypeDynamic"), <<>>, NoAt),
-    obstacleTypeEnvironment |-> T(MSimple("obstacleTypeEnvironment"), <<>>, NoAt),
-    timeOfDay |-> T(MSimple("timeOfDay"), <<>>, NoAt), weather |-> T(MSimple("weather"), <<>>, NoAt),
-    underground |-> T(MSimple("underground"), <<>>, NoAt),
+    xs_decimal |-> XT(MSimple("decimal"), <<>>, NoAt), positiveDecimal |-> XT(MSimple("positiveDecimal"), <<>>, NoAt),
+    xs_integer |-> XT(MSimple("integer"), <<>>, NoAt), xs_positiveInteger |-> XT(MSimple("positiveInteger"), <<>>, NoAt),
+    xs_nonNegativeInteger |-> XT(MSimple("nonNegativeInteger"), <<>>, NoAt), integerZero |-> XT(MSimple("integerZero"), <<>>, NoAt),
+    xs_boolean |-> XT(MSimple("boolean"), <<>>, NoAt), xs_string |-> XT(MSimple("string"), <<>>, NoAt),
+    xs_time |-> XT(MSimple("time"), <<>>, NoAt),
+    lineMarking |-> XT(MSimple("lineMarking"), <<>>, NoAt), laneletType |-> XT(MSimple("laneletType"), <<>>, NoAt),
+    vehicleType |-> XT(MSimple("vehicleType"), <<>>, NoAt), trafficSignID |-> XT(MSimple("trafficSignID"), <<>>, NoAt),
+    trafficLightColor |-> XT(MSimple("trafficLightColor"), <<>>, NoAt),
+    trafficLightDirection |-> XT(MSimple("trafficLightDirection"), <<>>, NoAt),
+    obstacleTypeStatic |-> XT(MSimple("obstacleTypeStatic"), <<>>, NoAt),
+    obstacleTypeDynamic |-> XT(MSimple("obstacleTypeDynamic"), <<>>, NoAt),
+    obstacleTypeEnvironment |-> XT(MSimple("obstacleTypeEnvironment"), <<>>, NoAt),
+    timeOfDay |-> XT(MSimple("timeOfDay"), <<>>, NoAt), weather |-> XT(MSimple("weather"), <<>>, NoAt),
+    underground |-> XT(MSimple("underground"), <<>>, NoAt),
     \* 22-69 exact / interval values
-    decimalExact |-> T(MAll(<<One("exact")>>), [exact |-> "xs_decimal"], NoAt),
-    decimalInterval |-> T(MSeq(<<One("intervalStart"), One("intervalEnd")>>),
+    decimalExact |-> XT(MAll(<<One("exact")>>), [exact |-> "xs_decimal"], NoAt),
+    decimalInterval |-> XT(MSeq(<<One("intervalStart"), One("intervalEnd")>>),
                           [intervalStart |-> "xs_decimal", intervalEnd |-> "xs_decimal"], NoAt),
-    decimalEoI |-> T(MChoice(<< <<One("exact")>>, <<One("intervalStart"), One("intervalEnd")>> >>),
+    decimalEoI |-> XT(MChoice(<< <<One("exact")>>, <<One("intervalStart"), One("intervalEnd")>> >>),
                                  [exact |-> "xs_decimal", intervalStart |-> "xs_decimal", intervalEnd |-> "xs_decimal"], NoAt),
-    integerExactZero |-> T(MAll(<<One("exact")>>), [exact |-> "integerZero"], NoAt),
-    integerIvGt0 |-> T(MSeq(<<One("intervalStart"), One("intervalEnd")>>),
+    integerExactZero |-> XT(MAll(<<One("exact")>>), [exact |-> "integerZero"], NoAt),
+    integerIvGt0 |-> XT(MSeq(<<One("intervalStart"), One("intervalEnd")>>),
                                      [intervalStart |-> "xs_nonNegativeInteger", intervalEnd |-> "xs_positiveInteger"], NoAt),
     integerEoIGt0 |->
-        T(MChoice(<< <<One("exact")>>, <<One("intervalStart"), One("intervalEnd")>> >>),
+        XT(MChoice(<< <<One("exact")>>, <<One("intervalStart"), One("intervalEnd")>> >>),
           [exact |-> "xs_positiveInteger", intervalStart |-> "xs_nonNegativeInteger", intervalEnd |-> "xs_positiveInteger"], NoAt),
     \* 71-125 geometry
-    point |-> T(MSeq(<<One("x"), One("y"), Opt("z")>>), [x |-> "xs_decimal", y |-> "xs_decimal", z |-> "xs_decimal"], NoAt),
-    rectangle |-> T(MSeq(<<One("length"), One("width"), Opt("orientation"), Opt("center")>>),
+    point |-> XT(MSeq(<<One("x"), One("y"), Opt("z")>>), [x |-> "xs_decimal", y |-> "xs_decimal", z |-> "xs_decimal"], NoAt),
+    rectangle |-> XT(MSeq(<<One("length"), One("width"), Opt("orientation"), Opt("center")>>),
                     [length |-> "positiveDecimal", width |-> "positiveDecimal", orientation |-> "xs_decimal", center |-> "point"], NoAt),
-    circle |-> T(MSeq(<<One("radius"), Opt("center")>>), [radius |-> "positiveDecimal", center |-> "point"], NoAt),
-    polygon |-> T(MSeq(<<Pt("point", 3, U)>>), [point |-> "point"], NoAt),
-    shape |-> T(MStar({"rectangle", "circle", "polygon"}),
+    circle |-> XT(MSeq(<<One("radius"), Opt("center")>>), [radius |-> "positiveDecimal", center |-> "point"], NoAt),
+    polygon |-> XT(MSeq(<<Pt("point", 3, U)>>), [point |-> "point"], NoAt),
+    shape |-> XT(MStar({"rectangle", "circle", "polygon"}),
                 [rectangle |-> "rectangle", circle |-> "circle", polygon |-> "polygon"], NoAt),
-    position |-> T(MChoice(<< <<One("point")>>, <<Some("rectangle")>>, <<Some("circle")>>, <<Some("polygon")>>, <<Some("lanelet")>> >>),
+    position |-> XT(MChoice(<< <<One("point")>>, <<Some("rectangle")>>, <<Some("circle")>>, <<Some("polygon")>>, <<Some("lanelet")>> >>),
                    [point |-> "point", rectangle |-> "rectangle", circle |-> "circle", polygon |-> "polygon", lanelet |-> "ref"], NoAt),
-    positionExact |-> T(MAll(<<One("point")>>), [point |-> "point"], NoAt),
-    positionInterval |-> T(MChoice(<< <<Some("rectangle")>>, <<Some("circle")>>, <<Some("polygon")>>, <<Some("lanelet")>> >>),
+    positionExact |-> XT(MAll(<<One("point")>>), [point |-> "point"], NoAt),
+    positionInterval |-> XT(MChoice(<< <<Some("rectangle")>>, <<Some("circle")>>, <<Some("polygon")>>, <<Some("lanelet")>> >>),
                            [rectangle |-> "rectangle", circle |-> "circle", polygon |-> "polygon", lanelet |-> "ref"], NoAt),
     ref |-> RefT,
     \* 126-250 states
-    state |-> T(StateModel, StateChildTypes("integerEoIGt0"), NoAt),
-    initialState |-> T(StateModel, StateChildTypes("integerExactZero"), NoAt),
-    initialSignalState |-> T(SignalModel, SignalChildTypes("integerExactZero"), NoAt),
-    signalState |-> T(SignalModel, SignalChildTypes("integerEoIGt0"), NoAt),
-    initialStateExact |-> T(MAll(<<One("position"), One("velocity"), One("orientation"), One("yawRate"), One("slipAngle"),
+    state |-> XT(StateModel, StateChildTypes("integerEoIGt0"), NoAt),
+    initialState |-> XT(StateModel, StateChildTypes("integerExactZero"), NoAt),
+    initialSignalState |-> XT(SignalModel, SignalChildTypes("integerExactZero"), NoAt),
+    signalState |-> XT(SignalModel, SignalChildTypes("integerEoIGt0"), NoAt),
+    initialStateExact |-> XT(MAll(<<One("position"), One("velocity"), One("orientation"), One("yawRate"), One("slipAngle"),
                                    One("time"), Opt("acceleration")>>),
                             [position |-> "positionExact", velocity |-> "decimalExact", orientation |-> "decimalExact",
                              yawRate |-> "decimalExact", slipAngle |-> "decimalExact", time |-> "integerExactZero",
                              acceleration |-> "decimalExact"], NoAt),
-    goalState |-> T(MAll(<<One("time"), Opt("position"), Opt("orientation"), Opt("velocity")>>),
+    goalState |-> XT(MAll(<<One("time"), Opt("position"), Opt("orientation"), Opt("velocity")>>),
                     [time |-> "integerIvGt0", position |-> "positionInterval",
                      orientation |-> "decimalInterval", velocity |-> "decimalInterval"], NoAt),
-    occupancy |-> T(MSeq(<<One("shape"), One("time")>>), [shape |-> "shape", time |-> "integerEoIGt0"], NoAt),
+    occupancy |-> XT(MSeq(<<One("shape"), One("time")>>), [shape |-> "shape", time |-> "integerEoIGt0"], NoAt),
     \* 269-356 lanelet
-    bound |-> T(MSeq(<<Pt("point", 2, U), Opt("lineMarking")>>), [point |-> "point", lineMarking |-> "lineMarking"], NoAt),
-    laneletAdjacentRef |-> T(MEmpty, <<>>, <<At("ref", "integer", TRUE), At("drivingDir", "drivingDir", TRUE)>>),
-    stopLine |-> T(MSeq(<<Pt("point", 0, 2), One("lineMarking"), Many("trafficSignRef"), Many("trafficLightRef")>>),
+    bound |-> XT(MSeq(<<Pt("point", 2, U), Opt("lineMarking")>>), [point |-> "point", lineMarking |-> "lineMarking"], NoAt),
+    laneletAdjacentRef |-> XT(MEmpty, <<>>, <<At("ref", "integer", TRUE), At("drivingDir", "drivingDir", TRUE)>>),
+    stopLine |-> XT(MSeq(<<Pt("point", 0, 2), One("lineMarking"), Many("trafficSignRef"), Many("trafficLightRef")>>),
                    [point |-> "point", lineMarking |-> "lineMarking", trafficSignRef |-> "ref", trafficLightRef |-> "ref"], NoAt),
-    lanelet |-> T(MSeq(<<One("leftBound"), One("rightBound"), Many("predecessor"), Many("successor"), Opt("adjacentLeft"),
+    lanelet |-> XT(MSeq(<<One("leftBound"), One("rightBound"), Many("predecessor"), Many("successor"), Opt("adjacentLeft"),
                          Opt("adjacentRight"), Opt("stopLine"), Some("laneletType"), Many("userOneWay"),
                          Many("userBidirectional"), Many("trafficSignRef"), Many("trafficLightRef")>>),
                   [leftBound |-> "bound", rightBound |-> "bound", predecessor |-> "ref", successor |-> "ref",
@@ -206,52 +206,52 @@ Types ==
                    laneletType |-> "laneletType", userOneWay |-> "vehicleType", userBidirectional |-> "vehicleType",
                    trafficSignRef |-> "ref", trafficLightRef |-> "ref"], IdAt),
     \* 642-723 signs, lights, intersections
-    trafficSignElement |-> T(MSeq(<<One("trafficSignID"), Many("additionalValue")>>),
+    trafficSignElement |-> XT(MSeq(<<One("trafficSignID"), Many("additionalValue")>>),
                              [trafficSignID |-> "trafficSignID", additionalValue |-> "xs_string"], NoAt),
-    trafficSign |-> T(MSeq(<<Some("trafficSignElement"), Opt("position"), Many("virtual")>>),
+    trafficSign |-> XT(MSeq(<<Some("trafficSignElement"), Opt("position"), Many("virtual")>>),
                       [trafficSignElement |-> "trafficSignElement", position |-> "positionExact", virtual |-> "xs_boolean"], IdAt),
-    trafficCycleElement |-> T(MSeq(<<One("duration"), One("color")>>),
+    trafficCycleElement |-> XT(MSeq(<<One("duration"), One("color")>>),
                               [duration |-> "xs_positiveInteger", color |-> "trafficLightColor"], NoAt),
-    trafficLightCycle |-> T(MSeq(<<Some("cycleElement"), Opt("timeOffset")>>),
+    trafficLightCycle |-> XT(MSeq(<<Some("cycleElement"), Opt("timeOffset")>>),
                             [cycleElement |-> "trafficCycleElement", timeOffset |-> "xs_positiveInteger"], NoAt),
-    trafficLight |-> T(MSeq(<<One("cycle"), Opt("position"), Opt("direction"), Opt("active")>>),
+    trafficLight |-> XT(MSeq(<<One("cycle"), Opt("position"), Opt("direction"), Opt("active")>>),
                        [cycle |-> "trafficLightCycle", position |-> "positionExact", direction |-> "trafficLightDirection",
                         active |-> "xs_boolean"], IdAt),
-    incoming |-> T(MSeq(<<Some("incomingLanelet"), Many("successorsRight"), Many("successorsStraight"),
+    incoming |-> XT(MSeq(<<Some("incomingLanelet"), Many("successorsRight"), Many("successorsStraight"),
                           Many("successorsLeft"), Opt("isLeftOf")>>),
                    [incomingLanelet |-> "ref", successorsRight |-> "ref", successorsStraight |-> "ref",
                     successorsLeft |-> "ref", isLeftOf |-> "ref"], IdAt),
-    crossing |-> T(MSeq(<<Some("crossingLanelet")>>), [crossingLanelet |-> "ref"], NoAt),
-    intersection |-> T(MSeq(<<Some("incoming"), Many("crossing")>>), [incoming |-> "incoming", crossing |-> "crossing"], IdAt),
+    crossing |-> XT(MSeq(<<Some("crossingLanelet")>>), [crossingLanelet |-> "ref"], NoAt),
+    intersection |-> XT(MSeq(<<Some("incoming"), Many("crossing")>>), [incoming |-> "incoming", crossing |-> "crossing"], IdAt),
     \* 739-829 obstacles, planning problem
-    staticObstacle |-> T(MSeq(<<One("type"), One("shape"), One("initialState")>>),
+    staticObstacle |-> XT(MSeq(<<One("type"), One("shape"), One("initialState")>>),
                          [type |-> "obstacleTypeStatic", shape |-> "shape", initialState |-> "initialState"], IdAt),
-    dynamicObstacle |-> T(MChoice(<<DynSeq("trajectory"), DynSeq("occupancySet")>>),
+    dynamicObstacle |-> XT(MChoice(<<DynSeq("trajectory"), DynSeq("occupancySet")>>),
                           [type |-> "obstacleTypeDynamic", shape |-> "shape", initialState |-> "initialState",
                            initialSignalState |-> "initialSignalState", trajectory |-> "trajectory",
                            occupancySet |-> "occupancySet", signalSeries |-> "signalSeries"], IdAt),
-    trajectory |-> T(MSeq(<<Some("state")>>), [state |-> "state"], NoAt),
+    trajectory |-> XT(MSeq(<<Some("state")>>), [state |-> "state"], NoAt),
     occupancySet |-> OccSetT,
-    signalSeries |-> T(MSeq(<<Some("signalState")>>), [signalState |-> "signalState"], NoAt),
-    environmentObstacle |-> T(MSeq(<<One("type"), One("shape")>>), [type |-> "obstacleTypeEnvironment", shape |-> "shape"], IdAt),
-    phantomObstacle |-> T(MSeq(<<One("occupancySet")>>), [occupancySet |-> "occupancySet"], IdAt),
-    planningProblem |-> T(MSeq(<<One("initialState"), Some("goalState")>>),
+    signalSeries |-> XT(MSeq(<<Some("signalState")>>), [signalState |-> "signalState"], NoAt),
+    environmentObstacle |-> XT(MSeq(<<One("type"), One("shape")>>), [type |-> "obstacleTypeEnvironment", shape |-> "shape"], IdAt),
+    phantomObstacle |-> XT(MSeq(<<One("occupancySet")>>), [occupancySet |-> "occupancySet"], IdAt),
+    planningProblem |-> XT(MSeq(<<One("initialState"), Some("goalState")>>),
                           [initialState |-> "initialStateExact", goalState |-> "goalState"], IdAt),
     \* 830-922 location, tags
-    geoReference |-> T(MMixed, <<>>, NoAt),
-    additionalTransf |-> T(MSeq(<<One("xTranslation"), One("yTranslation"), One("zRotation"), One("scaling")>>),
+    geoReference |-> XT(MMixed, <<>>, NoAt),
+    additionalTransf |-> XT(MSeq(<<One("xTranslation"), One("yTranslation"), One("zRotation"), One("scaling")>>),
                                    [xTranslation |-> "xs_decimal", yTranslation |-> "xs_decimal", zRotation |-> "xs_decimal",
                                     scaling |-> "positiveDecimal"], NoAt),
-    geoTransformation |-> T(MChoice(<< <<>>, <<One("geoReference"), One("additionalTransformation")>> >>),
+    geoTransformation |-> XT(MChoice(<< <<>>, <<One("geoReference"), One("additionalTransformation")>> >>),
                             [geoReference |-> "geoReference", additionalTransformation |-> "additionalTransf"], NoAt),
-    environment |-> T(MSeq(<<One("time"), One("timeOfDay"), One("weather"), One("underground")>>),
+    environment |-> XT(MSeq(<<One("time"), One("timeOfDay"), One("weather"), One("underground")>>),
                       [time |-> "xs_time", timeOfDay |-> "timeOfDay", weather |-> "weather", underground |-> "underground"], NoAt),
-    location |-> T(MSeq(<<One("geoNameId"), One("gpsLatitude"), One("gpsLongitude"), Opt("geoTransformation"), Opt("environment")>>),
+    location |-> XT(MSeq(<<One("geoNameId"), One("gpsLatitude"), One("gpsLongitude"), Opt("geoTransformation"), Opt("environment")>>),
                    [geoNameId |-> "xs_integer", gpsLatitude |-> "xs_decimal", gpsLongitude |-> "xs_decimal",
                     geoTransformation |-> "geoTransformation", environment |-> "environment"], NoAt),
-    tag |-> T(MAll([i \in 1..Len(TagSeq) |-> Opt(TagSeq[i])]), [n \in XRange(TagSeq) |-> "xs_string"], NoAt),
+    tag |-> XT(MAll([i \in 1..Len(TagSeq) |-> Opt(TagSeq[i])]), [n \in XRange(TagSeq) |-> "xs_string"], NoAt),
     \* 924-961 root
-    commonRoad |-> T(MSeq(<<One("location"), One("scenarioTags"), Some("lanelet"), Many("trafficSign"), Many("trafficLight"),
+    commonRoad |-> XT(MSeq(<<One("location"), One("scenarioTags"), Some("lanelet"), Many("trafficSign"), Many("trafficLight"),
                             Many("intersection"), Many("staticObstacle"), Many("dynamicObstacle"), Many("phantomObstacle"),
                             Many("environmentObstacle"), Some("planningProblem")>>),
                      [location |-> "location", scenarioTags |-> "tag", lanelet |-> "lanelet", trafficSign |-> "trafficSign",
